@@ -111,6 +111,23 @@ def seq_cmp_exec(rng):
     for _ in range(5):
         L.append("V %d R 3%s" % (t, "".join(" %d %d" % (k, rng.choice(it[:3])) for k in ks)))
         trees.append(t); t += 1
+    # larger ordered maps (6 .. 14 bindings: every node shape of a red-black tree that deep) with the SAME contents reached
+    # through different insertion orders, one with a single value raised, one with a key missing: compared all against all
+    kd, kt = define("I", list(range(100, 116)), t); L += kd; t += len(kt)
+    biggroups = []; intent = []
+    for n in (6, 9, 12, 14):
+        ks = rng.sample(kt, n); vals = {k: rng.choice(it[:5]) for k in ks}          # (no binding holds the largest value yet)
+        g = []
+        for order in (rng.sample(ks, n), sorted(ks), sorted(ks, reverse=True), rng.sample(ks, n)):
+            L.append("V %d R %d%s" % (t, n, "".join(" %d %d" % (k, vals[k]) for k in order))); g.append(t); t += 1
+        intent += ["same %d %d" % (g[0], x) for x in g[1:]]
+        hi = rng.choice(ks); order = rng.sample(ks, n)                                # one value raised to the largest: greater
+        L.append("V %d R %d%s" % (t, n, "".join(" %d %d" % (k, it[5] if k == hi else vals[k]) for k in order))); g.append(t); t += 1
+        intent += ["less %d %d" % (x, g[4]) for x in g[:4]]
+        drop = max(ks)                 # the largest key missing: smaller whichever way the Tree iterates (a proper prefix, or an earlier smaller key)
+        L.append("V %d R %d%s" % (t, n - 1, "".join(" %d %d" % (k, vals[k]) for k in order if k != drop))); g.append(t); t += 1
+        intent += ["less %d %d" % (g[5], x) for x in g[:4]]
+        biggroups.append(g)
     sv = strings(rng, 6)
     sl, st = define("S", sv, t); L += sl; t += len(st)
     sseqs = []
@@ -118,7 +135,7 @@ def seq_cmp_exec(rng):
         n = rng.choice([0, 1, 2, 3])
         L.append("V %d %s %d%s" % (t, rng.choice("AL"), n, "".join(" %d" % rng.choice(st) for _ in range(n))))
         sseqs.append(t); t += 1
-    return L + [p for p in all_pairs(seqs) if int(p.split()[2]) not in dup] + all_pairs(trees) + all_pairs(sseqs)
+    return L + [p for p in all_pairs(seqs) if int(p.split()[2]) not in dup] + all_pairs(trees) + [p for g in biggroups for p in all_pairs(g)] + intent + all_pairs(sseqs)
 
 def hash_exec(rng):
     """equal values in different instances, allocation classes and construction histories"""
